@@ -19,6 +19,7 @@ import (
 	"github.com/scionproto/scion/pkg/addr"
 	"github.com/scionproto/scion/pkg/log"
 	"github.com/scionproto/scion/pkg/slayers"
+	"github.com/scionproto/scion/pkg/slayers/path/epic"
 	"github.com/scionproto/scion/pkg/stun"
 	"github.com/scionproto/scion/router/underlayproviders/udpip"
 
@@ -193,8 +194,9 @@ func (en *engine) feed(dv *dpVar, raw []byte, link uint16, headroom int, sc *sce
 				}
 				wt, wc := expectedTypeCode(sc.cause, cons)
 				if wt == res.SpType && wc == res.SpCode || e.Prop == "C09" {
-					e.Op(fmt.Sprintf("cz %s %d %d %d %d %d", sc.cause, b2i(cons), at.scn.AddrHdrLen(),
-						at.rawPath.NumINF, at.rawPath.PathMeta.CurrINF, at.rawPath.PathMeta.CurrHF),
+					e.Op(fmt.Sprintf("cz %s %d %d %d %d %d %d", sc.cause, b2i(cons), at.scn.AddrHdrLen(),
+						at.rawPath.NumINF, at.rawPath.PathMeta.CurrINF, at.rawPath.PathMeta.CurrHF,
+						b2i(at.scn.PathType == epic.PathType)),
 						fmt.Sprintf("%d %d %d", res.SpType, res.SpCode, res.SpPtr), "cz/"+sc.cause)
 				}
 			}
